@@ -1,6 +1,7 @@
 package seq
 
 import (
+	"bytes"
 	"fmt"
 	"sort"
 	"sync"
@@ -265,8 +266,17 @@ func init() {
 		p.Rule = "cases are Iterator calls (replica state, upper, lower, amount), replica states de-duplicated on (entry set, heads); non-trivial = distinct calls whose expected output is a proper non-empty part of the log"
 		p.Assume("replica states from the 3-replica BFS up to the stated depth with <= 6 (quick) / 7 (thorough) entries; strict orderings only; lower bounds inside the selected range only; a single exclusive upper bound (the statement's scope); the iterator is not shared between goroutines here (C13 covers that)")
 		runSearches(p, c15Searches(p, tier))
+		c15Gapped(p, tier)
 		p.Sample(8, c15Case{Config: "def3", Path: []seqx.Op{{K: "app", A: 0}, {K: "app", A: 1}, {K: "join", A: 0, B: 1}, {K: "app", A: 0}}, Replica: 0, Upper: "lte", U: []int{2, 1}, Lower: "gte", G: 0, Amount: 2})
 	}, Replay: func(p *run.Part, check string, raw []byte) {
+		if bytes.Contains(raw, []byte(`"shape"`)) {
+			var gc c15GapCase
+			if err := jsonUnmarshal(raw, &gc); err != nil {
+				panic(err)
+			}
+			gapIterOne(p, gc)
+			return
+		}
 		var cc c15Case
 		if err := jsonUnmarshal(raw, &cc); err != nil {
 			panic(err)
